@@ -1,4 +1,4 @@
-use crate::internals::stream_controller::*;
+use crate::internals::{function_wrapper::*, stream_controller::*};
 use crate::prelude::*;
 
 #[derive(Clone)]
@@ -6,7 +6,9 @@ pub struct Tap<'a, Item>
 where
   Item: Clone + Send + Sync,
 {
-  tap_observer: Observer<'a, Item>,
+  next_f: FunctionWrapper<'a, Item, ()>,
+  error_f: FunctionWrapper<'a, RxError, ()>,
+  complete_f: FunctionWrapper<'a, (), ()>,
 }
 
 impl<'a, Item> Tap<'a, Item>
@@ -24,13 +26,27 @@ where
     Complete: Fn() + Send + Sync + 'a,
   {
     Tap {
-      tap_observer: Observer::new(next, error, complete),
+      next_f: FunctionWrapper::new(next),
+      error_f: FunctionWrapper::new(error),
+      complete_f: FunctionWrapper::new(move |_| complete()),
     }
   }
 
   pub fn execute(&self, source: Observable<'a, Item>) -> Observable<'a, Item> {
-    let tap_observer = self.tap_observer.clone();
+    let next_f = self.next_f.clone();
+    let error_f = self.error_f.clone();
+    let complete_f = self.complete_f.clone();
     Observable::create(move |s| {
+      let tap_observer = {
+        let next_f = next_f.clone();
+        let error_f = error_f.clone();
+        let complete_f = complete_f.clone();
+        Observer::new(
+          move |x| next_f.call(x),
+          move |e| error_f.call(e),
+          move || complete_f.call(()),
+        )
+      };
       let sctl = StreamController::new(s);
       let source_next = source.clone();
 
